@@ -177,8 +177,14 @@ inline ApiCase gen_vecop(const MODULE* mod, const VecOp& op, const VecShape& s0,
   if (op.nin >= 1) ia = c.add("a", R_IN, ae * 8);
   if (op.nin >= 2) ib = c.add("b", R_IN, be * 8);
   bool b_is_a = (s.alias == AL_A_B || s.alias == AL_RES_A_B);
-  if (ia >= 0) for (size_t e = 0; e < ae; ++e) put_i64(c.bufs[ia].init, e, vec_a_value(e));
-  if (ib >= 0) for (size_t e = 0; e < be; ++e) put_i64(c.bufs[ib].init, e, b_is_a ? vec_a_value(e) : vec_b_value(e));
+  // structured rows next to the injective probes: limb 1 (mod 4) of `a` holds only multiples of 2^32, limb 2 (mod 4) of `b` only
+  // zeros, limb 3 (mod 4) of `a` only zeros (a value-keyed shortcut - "this row is zero" - must still be right)
+  auto a_val = [&](size_t e, uint64_t sl) { uint64_t limb = sl ? e / sl : 0, pos = sl ? e % sl : e; int64_t v = vec_a_value(e);
+    if (pos < N && limb % 4 == 1) v = (v >> 32) * (INT64_C(1) << 32); if (pos < N && limb % 4 == 3) v = 0; return v; };
+  auto b_val = [&](size_t e, uint64_t sl) { uint64_t limb = sl ? e / sl : 0, pos = sl ? e % sl : e; int64_t v = vec_b_value(e);
+    if (pos < N && limb % 4 == 2) v = 0; return v; };
+  if (ia >= 0) for (size_t e = 0; e < ae; ++e) put_i64(c.bufs[ia].init, e, a_val(e, s.asl));
+  if (ib >= 0) for (size_t e = 0; e < be; ++e) put_i64(c.bufs[ib].init, e, b_is_a ? a_val(e, s.asl) : b_val(e, s.bsl));
   if (s.alias == AL_RES_A || s.alias == AL_RES_A_B || s.alias == AL_RES_A_COMPACT) c.bufs[ia].alias_of = ir;
   if (s.alias == AL_RES_B || s.alias == AL_RES_A_B) c.bufs[ib].alias_of = ir;
   if (s.alias == AL_A_B) c.bufs[ib].alias_of = ia;
